@@ -215,15 +215,16 @@ def assignments(spec, dom_n=2, arg_dom_n=None, multi_len=2, arg_multi_len=None, 
 # ------------------------------------------------------------------------------------------------
 def canon(x):
     """type-strict JSON-able form (True != 1, 5 != 5.0)"""
-    if x is None or isinstance(x, str):
+    t = type(x)
+    if t is str or x is None:
         return x
-    if isinstance(x, bool):
+    if t is bool:
         return {"bool": x}
-    if isinstance(x, int):
+    if t is int:
         return {"int": x}
-    if isinstance(x, float):
+    if t is float:
         return {"float": repr(x)}
-    if isinstance(x, (list, tuple)):
+    if t is list or t is tuple:
         return [canon(v) for v in x]
     if isinstance(x, dict):
         return {str(k): canon(v) for k, v in x.items()}
